@@ -37,9 +37,11 @@ import (
 	pbsubstreams "github.com/streamingfast/substreams/pb/sf/substreams/v1"
 	pbsubstreamstest "github.com/streamingfast/substreams/pb/sf/substreams/v1/test"
 	"github.com/streamingfast/substreams/pipeline"
+	"github.com/streamingfast/substreams/pipeline/exec"
 	"github.com/streamingfast/substreams/reqctx"
 	"github.com/streamingfast/substreams/service"
 	"github.com/streamingfast/substreams/service/config"
+	"github.com/streamingfast/substreams/storage/store"
 
 	"verifharness/modgen"
 	"verifharness/script"
@@ -502,3 +504,42 @@ func MustRead(dir, rel string) []byte {
 }
 
 func RemoveDir(dir string) { os.RemoveAll(dir) }
+
+// ReadSnapshot loads the full snapshot of store module `name` ending at block `end` from the cache directory through the
+// real store loader and renders it as sorted "key=value" pairs ("" + error when the file is absent or unreadable).
+func ReadSnapshot(dir string, mods *pbsubstreams.Modules, output, name string, end uint64) (string, error) {
+	g, err := exec.NewOutputModuleGraph(output, true, mods, 0)
+	if err != nil {
+		return "", err
+	}
+	var mod *pbsubstreams.Module
+	for _, m := range mods.Modules {
+		if m.Name == name {
+			mod = m
+		}
+	}
+	if mod == nil || mod.GetKindStore() == nil {
+		return "", fmt.Errorf("%s is not a store module", name)
+	}
+	base, err := dstore.NewStore(filepath.Join(dir, "test.store"), "zst", "zstd", true)
+	if err != nil {
+		return "", err
+	}
+	tagged, err := base.SubStore("tag")
+	if err != nil {
+		return "", err
+	}
+	cfg, err := store.NewConfig(name, mod.InitialBlock, g.ModuleHashes().Get(name), mod.GetKindStore().UpdatePolicy, mod.GetKindStore().ValueType, tagged)
+	if err != nil {
+		return "", err
+	}
+	ctx := dmetering.WithBytesMeter(reqctx.WithLogger(context.Background(), zap.NewNop()))
+	kv := cfg.NewFullKV(zap.NewNop())
+	if err := kv.Load(ctx, store.NewCompleteFileInfo(name, mod.InitialBlock, end)); err != nil {
+		return "", err
+	}
+	var kvs []string
+	kv.Iter(func(k string, v []byte) error { kvs = append(kvs, fmt.Sprintf("%s=%s", k, v)); return nil })
+	sort.Strings(kvs)
+	return strings.Join(kvs, " "), nil
+}
